@@ -21,6 +21,9 @@
 //!   `dp.diagreq <slot>`             -> `ok ; <summary>` | `err ; <summary>`   request_diagnostics()
 //! summary = `st=<S|C|O>` then per occupied slot ` [<slot> <addr> <is_live><is_running> i=<pi_i> q=<pi_q> d=<last_diagnostics>]`
 //!   last_diagnostics = `-` | `<flags hex4>/<ident>/<master|->/<ext raw hex|none|panic>`
+//!   `dp.env <fdl|->`                -> `env`    marker: the history was produced by a real FdlActiveStation
+//!                                              (engine `dpfdl`); the oracles then treat a callback outside the FDL
+//!                                              contract as a failure instead of dropping the case
 //! After `panic` / `hang` the object is gone: every further op answers `dead` until the next `dp.new`.
 //!
 //! The master lives in a worker thread; an op that does not answer within `HANG_MS` is reported as
@@ -68,7 +71,7 @@ fn with_tg<R>(tg: &Tg, f: impl FnOnce(fdl::Telegram) -> R) -> R {
     }
 }
 
-fn baud_of(rate: u64) -> Option<profirust::Baudrate> {
+pub(crate) fn baud_of(rate: u64) -> Option<profirust::Baudrate> {
     use profirust::Baudrate::*;
     Some(match rate {
         9600 => B9600,
@@ -104,7 +107,7 @@ fn opt_bytes(s: &str) -> Option<Option<&'static [u8]>> {
     Some(Some(Box::leak(unhex(s).into_boxed_slice())))
 }
 
-fn parse_periph(s: &str) -> Option<dp::Peripheral<'static>> {
+pub(crate) fn parse_periph(s: &str) -> Option<dp::Peripheral<'static>> {
     let f: Vec<&str> = s.split(':').collect();
     let [addr, ident, sf, groups, prm, cfg, ilen, qlen, dbuf] = f.as_slice() else {
         return None;
@@ -129,7 +132,7 @@ fn parse_periph(s: &str) -> Option<dp::Peripheral<'static>> {
     Some(if dbuf > 0 { p.with_diag_buffer(vec![0u8; dbuf]) } else { p })
 }
 
-fn event_name(e: PeripheralEvent) -> &'static str {
+pub(crate) fn event_name(e: PeripheralEvent) -> &'static str {
     match e {
         PeripheralEvent::Online => "Online",
         PeripheralEvent::Configured => "Configured",
@@ -241,6 +244,10 @@ fn dp_new(w: &[&str]) -> Option<Option<Live>> {
 /// One op on the worker's state.  `Err(())` = bad op.
 fn step(st: &mut Option<Live>, line: &str) -> String {
     let w: Vec<&str> = line.split(' ').collect();
+    if w[0] == "dp.env" {
+        // marker: where the history comes from (`fdl` = produced by a real FdlActiveStation)
+        return "env".to_string();
+    }
     if w[0] == "dp.new" {
         return match dp_new(&w[1..]) {
             None => "bad-op".to_string(),
@@ -446,7 +453,7 @@ impl crate::Executor for Exec {
 
 const BAUDS: [u64; 11] = [9600, 19200, 31250, 45450, 93750, 187500, 500000, 1500000, 3000000, 6000000, 12000000];
 
-fn min_bits(baud: u64) -> u64 {
+pub(crate) fn min_bits(baud: u64) -> u64 {
     match baud {
         500000 => 200,
         1500000 => 300,
@@ -458,21 +465,21 @@ fn min_bits(baud: u64) -> u64 {
 }
 
 #[derive(Clone)]
-struct PCfg {
-    addr: u8,
-    ident: u16,
-    sync: bool,
-    freeze: bool,
-    groups: u8,
-    prm: Option<Vec<u8>>,
-    cfg: Option<Vec<u8>>,
-    ilen: usize,
-    qlen: usize,
-    dbuf: usize,
+pub(crate) struct PCfg {
+    pub(crate) addr: u8,
+    pub(crate) ident: u16,
+    pub(crate) sync: bool,
+    pub(crate) freeze: bool,
+    pub(crate) groups: u8,
+    pub(crate) prm: Option<Vec<u8>>,
+    pub(crate) cfg: Option<Vec<u8>>,
+    pub(crate) ilen: usize,
+    pub(crate) qlen: usize,
+    pub(crate) dbuf: usize,
 }
 
 impl PCfg {
-    fn text(&self) -> String {
+    pub(crate) fn text(&self) -> String {
         let ob = |o: &Option<Vec<u8>>| match o {
             None => "n".to_string(),
             Some(b) => hex(b),
@@ -494,20 +501,20 @@ impl PCfg {
 }
 
 #[derive(Clone)]
-struct MCfg {
-    own: u8,
-    baud: u64,
-    bits: Option<u64>,
-    retry: Option<u64>,
-    wd: Option<u64>,
-    mt: Option<u64>,
-    grow: bool,
-    k: usize,
-    ps: Vec<PCfg>,
+pub(crate) struct MCfg {
+    pub(crate) own: u8,
+    pub(crate) baud: u64,
+    pub(crate) bits: Option<u64>,
+    pub(crate) retry: Option<u64>,
+    pub(crate) wd: Option<u64>,
+    pub(crate) mt: Option<u64>,
+    pub(crate) grow: bool,
+    pub(crate) k: usize,
+    pub(crate) ps: Vec<PCfg>,
 }
 
 impl MCfg {
-    fn text(&self) -> String {
+    pub(crate) fn text(&self) -> String {
         let on = |o: Option<u64>| o.map(|x| x.to_string()).unwrap_or("-".to_string());
         let mut s = format!(
             "dp.new {} {} {} {} {} {} {}{}",
@@ -526,7 +533,7 @@ impl MCfg {
         }
         s
     }
-    fn slot_us(&self) -> i64 {
+    pub(crate) fn slot_us(&self) -> i64 {
         (self.bits.unwrap_or(min_bits(self.baud)) * 1_000_000 / self.baud) as i64
     }
     fn limit(&self) -> u64 {
@@ -574,7 +581,7 @@ fn random_pcfg(rng: &mut Rng, addr: u8, big: bool) -> PCfg {
 
 const WDS: [Option<u64>; 8] = [None, None, Some(10), Some(15), Some(2550), Some(650000), Some(100), Some(2560)];
 
-fn random_mcfg(rng: &mut Rng, n: usize, big: bool) -> MCfg {
+pub(crate) fn random_mcfg(rng: &mut Rng, n: usize, big: bool) -> MCfg {
     let baud = *rng.pick(&BAUDS);
     let own = *rng.pick(&[0u8, 1, 2, 2, 2, 7, 125]);
     let mut addrs: Vec<u8> = vec![];
@@ -611,15 +618,15 @@ fn random_mcfg(rng: &mut Rng, n: usize, big: bool) -> MCfg {
 
 /// A request of the master as the bus sees it.
 #[derive(Clone, Debug)]
-struct Req {
-    da: u8,
-    dsap: Option<u8>,
-    ssap: Option<u8>,
-    high: bool,
-    pdu: Vec<u8>,
+pub(crate) struct Req {
+    pub(crate) da: u8,
+    pub(crate) dsap: Option<u8>,
+    pub(crate) ssap: Option<u8>,
+    pub(crate) high: bool,
+    pub(crate) pdu: Vec<u8>,
 }
 
-fn decode_req(bytes: &[u8]) -> Option<Req> {
+pub(crate) fn decode_req(bytes: &[u8]) -> Option<Req> {
     match fdl::Telegram::deserialize(bytes) {
         Some(Ok((fdl::Telegram::Data(t), _))) => match t.h.fc {
             fdl::FunctionCode::Request { req, .. } => Some(Req {
@@ -666,26 +673,26 @@ enum SState {
 }
 
 #[derive(Clone)]
-struct Slave {
-    addr: u8,
+pub(crate) struct Slave {
+    pub(crate) addr: u8,
     /// what the device really is (may differ from what the master was configured with)
-    ident: u16,
-    cfg: Vec<u8>,
-    ilen: usize,
-    state: SState,
-    prm_fault: bool,
-    cfg_fault: bool,
-    master: u8,
-    diag_pending: bool,
-    ext: Vec<u8>,
-    counter: u8,
-    present: bool,
+    pub(crate) ident: u16,
+    pub(crate) cfg: Vec<u8>,
+    pub(crate) ilen: usize,
+    pub(crate) state: SState,
+    pub(crate) prm_fault: bool,
+    pub(crate) cfg_fault: bool,
+    pub(crate) master: u8,
+    pub(crate) diag_pending: bool,
+    pub(crate) ext: Vec<u8>,
+    pub(crate) counter: u8,
+    pub(crate) present: bool,
     /// transient: reports STATION_NOT_READY for that many more diagnostics replies
-    not_ready: u8,
+    pub(crate) not_ready: u8,
 }
 
 impl Slave {
-    fn new(p: &PCfg) -> Slave {
+    pub(crate) fn new(p: &PCfg) -> Slave {
         Slave {
             addr: p.addr,
             ident: p.ident,
@@ -702,7 +709,7 @@ impl Slave {
             not_ready: 0,
         }
     }
-    fn power_cycle(&mut self) {
+    pub(crate) fn power_cycle(&mut self) {
         self.state = SState::WaitPrm;
         self.prm_fault = false;
         self.cfg_fault = false;
@@ -732,7 +739,7 @@ impl Slave {
         p
     }
     /// The reply to `req` (telegram text), `None` = no reply on the wire.
-    fn respond(&mut self, own: u8, req: &Req, rng: &mut Rng) -> Option<String> {
+    pub(crate) fn respond(&mut self, own: u8, req: &Req, rng: &mut Rng) -> Option<String> {
         if !self.present {
             return None;
         }
@@ -824,7 +831,7 @@ fn diag_flags_pdu(mask: u8, ident: u16, extra: &[u8]) -> Vec<u8> {
 
 /// Any reply the FDL contract allows for a request to `a` (SA = a, DA = own, response function
 /// code, or SC), aimed at the decision points of `receive_reply`.
-fn weird_reply(rng: &mut Rng, own: u8, a: u8, ilen: usize, ident: u16) -> String {
+pub(crate) fn weird_reply(rng: &mut Rng, own: u8, a: u8, ilen: usize, ident: u16) -> String {
     let status = *rng.pick(&STATUS);
     let state = rng.below(4);
     let data_len = |rng: &mut Rng| match rng.below(8) {
@@ -1032,7 +1039,7 @@ impl<'a> Case<'a> {
     }
 }
 
-fn slaves_for(cfg: &MCfg) -> Vec<Slave> {
+pub(crate) fn slaves_for(cfg: &MCfg) -> Vec<Slave> {
     cfg.ps.iter().map(Slave::new).collect()
 }
 
